@@ -471,20 +471,15 @@ impl BloomFilter {
                     .map_err(insufficient_data("bit_array"))?;
             }
 
-            // Handle "dirty" state: 0xFFFFFFFFFFFFFFFF indicates bits need recounting
+            // The stored count must be the population count of the array (the filter keeps
+            // adding to and subtracting from it); 0xFFFFFFFFFFFFFFFF marks a "dirty" image
+            // whose writer left the counting to the reader.
             const DIRTY_BITS_VALUE: u64 = 0xFFFFFFFFFFFFFFFF;
-            if raw_num_bits_set == DIRTY_BITS_VALUE {
-                num_bits_set = bit_array.iter().map(|w| w.count_ones() as u64).sum();
-            } else {
-                let raw_num_words_set = raw_num_bits_set.div_ceil(64) as usize;
-                if raw_num_words_set > num_words {
-                    return Err(Error::deserial(format!(
-                        "invalid num_bits_set: expected <= {}, got {}",
-                        num_words * 64,
-                        raw_num_bits_set
-                    )));
-                }
-                num_bits_set = raw_num_bits_set;
+            num_bits_set = bit_array.iter().map(|w| w.count_ones() as u64).sum();
+            if raw_num_bits_set != DIRTY_BITS_VALUE && raw_num_bits_set != num_bits_set {
+                return Err(Error::deserial(format!(
+                    "invalid num_bits_set: the bit array has {num_bits_set} bits set, got {raw_num_bits_set}"
+                )));
             }
         }
 
